@@ -92,6 +92,8 @@ def lift(repo):
                 events.append(f".backward .{loss[base]}")
                 srcs.append(s)
                 continue
+            if base in ("logger", "logging", "warnings") and not (_deps_of(call, deps)):
+                continue          # diagnostics cannot touch the .grad buffers
             _bad(f"call statement of unknown shape: {s[:80]}")
         if isinstance(st, ast.If):
             # equalized odds: Y_hat = torch.cat((Y_hat, Y), dim=1)
